@@ -143,7 +143,10 @@ def forwarding(repo, rep):
         if outer.name == "asymmetric":
             # dm / dspr are replaced by the frequency-dependent theta / sigma on purpose
             missing = [p for p in missing if p not in ("dm", "dspr")]
-            if bound.get("dm") != "theta" or bound.get("dspr") != "sigma":
+            def _derived(nm, src):
+                return any(isinstance(a_, ast.Assign) and isinstance(a_.targets[0], ast.Name) and a_.targets[0].id == nm and
+                           any(isinstance(x, ast.Name) and x.id == src for x in ast.walk(a_.value)) for a_ in ast.walk(outer.node))
+            if not _derived(bound.get("dm"), "dpm") or not _derived(bound.get("dspr"), "dpspr"):
                 rep.fail("R-C15-5", outer.file, c.lineno, outer.qualname, unparse(c), "asymmetric must call cartwright with the frequency-dependent direction and spread")
         if missing:
             rep.fail("R-C15-5", outer.file, c.lineno, outer.qualname, unparse(c)[:120],
